@@ -17,6 +17,8 @@ inductive ExcVal
   | runtimeError
   | notAcked
   | ncpFailure (code : Option Nat)
+  | connectionReset             -- ConnectionResetError(...) built by bellows/uart.py
+  | other (tag : Nat)           -- an exception object handed in from outside (identified by a tag)
 deriving Repr, DecidableEq
 
 end BV.Py
